@@ -219,7 +219,8 @@ static void explore(const Case &c, const std::string &prop, vf::Stats &st, size_
         if (!before.empty() && canon(vm) != before) { viol(ni, &a, "the end of the program is not absorbing: " + a.str() + " changed the state"); continue; }
         if (!before.empty() && a.t == Act::SINGLE && !rret) { viol(ni, &a, "executeSingle at the end of the program returned false"); continue; }
       }
-      if (prop == "C19") { std::string fe = orc::frames_exact(vm); if (!fe.empty()) { viol(ni, &a, fe); continue; } }
+      if (prop == "C19") { for (auto &act : vm.getActivations()) act.getActivationVariables(); vm.getCurrentBreak();  // the front end inspects every state it reaches
+        std::string fe = orc::frames_exact(vm); if (!fe.empty()) { viol(ni, &a, fe); continue; } }
       // ---------------- successor
       std::string cn = canon(vm);
       auto it = index.find(cn);
